@@ -165,6 +165,8 @@ pub fn generate2(seed: u64, n: usize, _tier: &str, emit: &mut dyn FnMut(String))
     for f in FIXED {
         emit(format!("30000000,10,50,250,394,0 {f}"));
         emit(format!("300,2,2,5,64,0 {f}"));
+        emit(format!("50,3,3,50,64,0 {f}"));
+        emit(format!("5,1,2,50,64,0 {f}"));
     }
     for idx in 0..n {
         let mut r = Rng::for_case(seed, "vm2", idx);
@@ -213,10 +215,18 @@ impl Asm {
     }
     /// PUSH5 of `2^32 + address of label` (a target whose low 32 bits name a JUMPDEST)
     pub fn push_label_high(&mut self, l: usize) {
-        self.bytes.push(0x64);
-        self.bytes.extend([1, 0, 0]);
-        self.fixups.push((self.bytes.len(), l));
-        self.bytes.extend([0, 0]);
+        self.push_label_bit(l, 32);
+    }
+    /// PUSHn of `2^bit + address of label` for `bit >= 16`: the low bits name a JUMPDEST, the
+    /// whole 256-bit value does not.
+    pub fn push_label_bit(&mut self, l: usize, bit: usize) {
+        let nbytes = bit / 8 + 1;
+        self.bytes.push(0x5f + nbytes as u8);
+        let mut imm = vec![0u8; nbytes];
+        imm[0] = 1 << (bit % 8);
+        let start = self.bytes.len();
+        self.bytes.extend(imm);
+        self.fixups.push((start + nbytes - 2, l));
     }
     pub fn label(&mut self, l: usize) {
         self.labels[l] = Some(self.bytes.len());
@@ -350,7 +360,15 @@ pub fn gen_program(r: &mut Rng, flavour: usize) -> Vec<u8> {
                 match r.below(6) {
                     0 => a.push_u(0xffff),                         // out of range
                     1 => a.push_u(1),                              // not a JUMPDEST (probably)
-                    2 => { if target > 0 && target < nblocks { a.push_label_high(target) } else { a.push_word(&[1, 0, 0, 0, 0]) } } // >= 2^32
+                    2 => {
+                        // a huge target whose low bits name a JUMPDEST
+                        if target > 0 && target < nblocks {
+                            let bit = [32usize, 33, 40, 63, 64, 65, 96, 127, 128, 160, 200, 255][r.below(12)];
+                            a.push_label_bit(target, bit)
+                        } else {
+                            a.push_word(&[1, 0, 0, 0, 0])
+                        }
+                    }
                     3 => { let w = hostile_word(r); a.push_word(&w) }
                     4 => a.op(0x33),                               // symbolic
                     _ => { a.push_u(2); a.push_u(3); a.op(0x01) }  // computed constant
@@ -406,16 +424,71 @@ pub fn gen_program(r: &mut Rng, flavour: usize) -> Vec<u8> {
     bytes
 }
 
+/// Loop shapes: headers entered from several places, conditional edges pointing forwards or
+/// backwards, unconditional back edges, nested loops.
+pub fn gen_loop_program(r: &mut Rng) -> Vec<u8> {
+    let n = 2 + r.below(4);
+    let mut a = Asm::new(n + 1);
+    let mut depth = 0usize;
+    let cond = |r: &mut Rng, a: &mut Asm| match r.below(3) {
+        0 => a.op(0x36),
+        1 => { a.op(0x36); a.op(0x15) }
+        _ => a.push_u(1),
+    };
+    // entry: optionally jump conditionally into the middle of the loop structure
+    for _ in 0..r.below(3) {
+        cond(r, &mut a);
+        a.push_label(1 + r.below(n - 1));
+        a.op(0x57);
+    }
+    if r.chance(1, 3) {
+        a.op(0x00);
+    }
+    for b in 1..n {
+        a.label(b);
+        let nb = r.below(3);
+        body(r, &mut a, &mut depth, nb, 1);
+        match r.below(6) {
+            0 | 1 => {
+                // conditional edge to any block (forwards or backwards), then fall through / stop
+                cond(r, &mut a);
+                a.push_label(1 + r.below(n - 1));
+                a.op(0x57);
+                if r.chance(1, 3) {
+                    a.op(0x00);
+                }
+            }
+            2 | 3 => {
+                // unconditional edge to any block
+                a.push_label(1 + r.below(n - 1));
+                a.op(0x56);
+            }
+            4 => {
+                // two conditional edges
+                cond(r, &mut a);
+                a.push_label(1 + r.below(n - 1));
+                a.op(0x57);
+                cond(r, &mut a);
+                a.push_label(1 + r.below(n - 1));
+                a.op(0x57);
+            }
+            _ => {}
+        }
+    }
+    a.op(0x00);
+    a.finish()
+}
+
 pub fn gen_cfg(r: &mut Rng, flavour: usize) -> String {
     let iter = if flavour == 3 { 1 + r.below(12) } else { [1usize, 2, 3, 10][r.below(4)] };
     let fork = if flavour == 3 { 1 + r.below(60) } else { [1usize, 2, 5, 50][r.below(4)] };
-    let gas = [300usize, 1000, 30_000, 30_000_000][r.below(4)];
+    let gas = [5usize, 50, 300, 1000, 30_000, 30_000_000, 30_000_000][r.below(7)];
     let val = [1usize, 3, 9, 30, 250][r.below(5)];
     let mem = [32usize, 64, 394][r.below(3)];
     format!("{gas},{iter},{fork},{val},{mem},{}", r.below(2))
 }
 
-pub const FIXED: [&str; 15] = [
+pub const FIXED: [&str; 18] = [
     "6003565b00",                         // PUSH1 3 JUMP JUMPDEST STOP
     "600160ff5700",                       // JUMPI to a bad target
     "6401000000095600005b00",             // jump target >= 2^32 whose low bits name a JUMPDEST
@@ -429,6 +502,9 @@ pub const FIXED: [&str; 15] = [
     "7fffffffffffffffffffffffffffffffffffffffffffffffffffffffffffffffff600052",
     "6040356020350160005260206000f3",
     "5b60018054016001555b366000576000ff",
+    "36600b57005b36600b57005b600556",     // forward conditional edge into a header that a backward JUMP re-enters
+    "6001600055",                         // SSTORE as the last byte (gas exhaustion on the final instruction)
+    "365600",                             // symbolic JUMP kills the thread (gas exhaustion on a thread-ending step)
     "50",                                 // stack underflow
     "60",                                 // bare push
 ];
@@ -437,12 +513,14 @@ pub fn generate(seed: u64, n: usize, _tier: &str, emit: &mut dyn FnMut(String)) 
     for f in FIXED {
         emit(format!("30000000,10,50,250,394,0 {f}"));
         emit(format!("1000,2,2,5,64,1 {f}"));
+        emit(format!("50,3,3,50,64,0 {f}"));
+        emit(format!("5,1,2,50,64,1 {f}"));
     }
     for idx in 0..n {
         let mut r = Rng::for_case(seed, "vm", idx);
-        let flavour = r.below(4);
-        let prog = gen_program(&mut r, flavour);
-        let cfg = gen_cfg(&mut r, flavour);
+        let flavour = r.below(5);
+        let prog = if flavour == 4 { gen_loop_program(&mut r) } else { gen_program(&mut r, flavour) };
+        let cfg = gen_cfg(&mut r, if flavour == 4 { 3 } else { flavour });
         emit(format!("{cfg} {}", util::bytes_to_hex(&prog)));
     }
 }
